@@ -705,6 +705,12 @@ class Request(interfaces.Request, BaseUnicastRequest):
 
         first_event = yield None
 
+        if self.response.cancelled():
+            # The application cancelled the response in this very loop
+            # iteration; _response_cancellation_handler, which stops the
+            # interest, has not run yet. There is nobody to report to.
+            return
+
         if first_event.message is not None:
             self._add_response_properties(first_event.message, self._pipe.request)
             self.response.set_result(first_event.message)
